@@ -72,7 +72,9 @@ pub fn replay(scratch: &std::path::Path, regs: &[Reg]) -> RunResult {
         apply_mut(&mut w, &Ev::Tick, &mut log).await; // opens the registration round
         let tp = w.time_point().await;
         let rec_epoch = tp.epoch.offset_to_recording_epoch();
-        let stakes: BTreeMap<String, u64> = w.fixture.signers_with_stake().iter().map(|s| (s.party_id.clone(), s.stake)).collect();
+        // the stake distribution the chain shows during the epoch of the registration
+        let all: std::collections::BTreeSet<usize> = (0..w.fixture.signers_with_stake().len()).collect();
+        let stakes: BTreeMap<String, u64> = w.signers_with_stake_in(&all, *tp.epoch).iter().map(|s| (s.party_id.clone(), s.stake)).collect();
         let mut violations = vec![];
         let mut answers = vec![];
         let mut accepted = 0;
